@@ -338,7 +338,7 @@ package analysis
 //@   loop 2: invariant !found ==> forall i in 0..idx :: primary.Schemes[i] != v
 //@   loop 2: invariant found ==> inStrs(primary.Schemes, v)
 
-//@ fun inTags(s []spec.Tag, n string) bool = exists i in 0..len(s) :: s[i].Name == n
+//@ ofun inTags(s []spec.Tag, n string) bool = exists i in 0..len(s) :: s[i].Name == n
 
 //@ func mergeTags(primary, m)
 //@   requires primary != nil && m != nil && primary != m
@@ -515,6 +515,7 @@ package analysis
 //@   ensures len(primary.Consumes) == old(len(primary.Consumes)) && (forall x in 0..len(primary.Consumes) :: primary.Consumes[x] == old(primary.Consumes[x]))
 //@   ensures len(primary.Produces) == old(len(primary.Produces)) && (forall x in 0..len(primary.Produces) :: primary.Produces[x] == old(primary.Produces[x]))
 //@   ensures len(primary.Schemes) == old(len(primary.Schemes)) && (forall x in 0..len(primary.Schemes) :: primary.Schemes[x] == old(primary.Schemes[x]))
+//@   ensures len(primary.Tags) == old(len(primary.Tags)) && (forall x in 0..len(primary.Tags) :: primary.Tags[x] == old(primary.Tags[x]))
 //@   ensures old(primary.Responses) == nil ==> fresh(primary.Responses) && len(primary.Responses) == 0
 //@   ensures old(primary.SecurityDefinitions) == nil ==> fresh(primary.SecurityDefinitions) && len(primary.SecurityDefinitions) == 0
 //@   ensures old(primary.Paths) == nil ==> fresh(primary.Paths) && fresh(primary.Paths.Paths) && len(primary.Paths.Paths) == 0
@@ -565,6 +566,15 @@ package analysis
 //@   ensures len(primary.Schemes) >= old(len(primary.Schemes)) && (forall x in 0..old(len(primary.Schemes)) :: primary.Schemes[x] == old(primary.Schemes[x]))
 //@   ensures (forall i in 0..len(mixins) :: forall j in 0..len(mixins[i].Schemes) :: inStrs(primary.Schemes, mixins[i].Schemes[j]))
 //@   ensures (forall x in old(len(primary.Schemes))..len(primary.Schemes) :: (exists i in 0..len(mixins) :: inStrs(mixins[i].Schemes, primary.Schemes[x])) && (forall x2 in 0..x :: primary.Schemes[x2] != primary.Schemes[x]))
+//@   ensures len(primary.Tags) >= old(len(primary.Tags)) && (forall x in 0..old(len(primary.Tags)) :: primary.Tags[x] == old(primary.Tags[x]))
+//@   ensures (forall i in 0..len(mixins) :: forall j in 0..len(mixins[i].Tags) :: inTags(primary.Tags, mixins[i].Tags[j].Name))
+//@   ensures forall x in old(len(primary.Tags))..len(primary.Tags) :: forall x2 in 0..x :: primary.Tags[x2].Name != primary.Tags[x].Name
+//@   ensures (old(primary.Host) != "" ==> primary.Host == old(primary.Host))
+//@   ensures old(primary.Host) == "" && primary.Host != "" ==> exists i in 0..len(mixins) :: mixins[i].Host == primary.Host && (forall j in 0..i :: mixins[j].Host == "")
+//@   ensures old(primary.Host) == "" && primary.Host == "" ==> forall i in 0..len(mixins) :: mixins[i].Host == ""
+//@   ensures (old(primary.BasePath) != "" ==> primary.BasePath == old(primary.BasePath))
+//@   ensures old(primary.BasePath) == "" && primary.BasePath != "" ==> exists i in 0..len(mixins) :: mixins[i].BasePath == primary.BasePath && (forall j in 0..i :: mixins[j].BasePath == "")
+//@   ensures old(primary.BasePath) == "" && primary.BasePath == "" ==> forall i in 0..len(mixins) :: mixins[i].BasePath == ""
 //@   loop 1: invariant primary != nil && opIDs != nil && (forall i in 0..len(mixins) :: mixins[i] != nil && mixins[i] != primary && primary.Paths != mixins[i].Paths && treeOps(mixins[i]) && (primary.Definitions != mixins[i].Definitions) && (primary.Parameters != mixins[i].Parameters) && (primary.Responses != mixins[i].Responses) && (primary.SecurityDefinitions != mixins[i].SecurityDefinitions) && (swPaths(primary) != swPaths(mixins[i])))
 //@   loop 1: invariant primary.SecurityDefinitions != nil && primary.Paths != nil && primary.Paths.Paths != nil && primary.Definitions != nil && primary.Parameters != nil && primary.Responses != nil
 //@   loop 1: invariant (forall k string :: old(k in dom(primary.Definitions)) ==> k in dom(primary.Definitions) && primary.Definitions[k] == old(primary.Definitions[k]))
@@ -596,6 +606,17 @@ package analysis
 //@   loop 1: invariant len(primary.Schemes) >= old(len(primary.Schemes)) && (forall x in 0..old(len(primary.Schemes)) :: primary.Schemes[x] == old(primary.Schemes[x]))
 //@   loop 1: invariant (forall i in 0..idx :: forall j in 0..len(mixins[i].Schemes) :: inStrs(primary.Schemes, mixins[i].Schemes[j]))
 //@   loop 1: invariant (forall x in old(len(primary.Schemes))..len(primary.Schemes) :: (exists i in 0..idx :: inStrs(mixins[i].Schemes, primary.Schemes[x])) && (forall x2 in 0..x :: primary.Schemes[x2] != primary.Schemes[x]))
+//@   loop 1: invariant len(primary.Tags) >= old(len(primary.Tags)) && (forall x in 0..old(len(primary.Tags)) :: primary.Tags[x] == old(primary.Tags[x]))
+//@   loop 1: invariant (forall i in 0..idx :: forall j in 0..len(mixins[i].Tags) :: inTags(primary.Tags, mixins[i].Tags[j].Name))
+//@   loop 1: invariant forall x in old(len(primary.Tags))..len(primary.Tags) :: forall x2 in 0..x :: primary.Tags[x2].Name != primary.Tags[x].Name
+//@   loop 1: invariant (old(primary.Host) != "" ==> primary.Host == old(primary.Host))
+//@   loop 1: invariant old(primary.Host) == "" && primary.Host != "" ==> exists i in 0..idx :: mixins[i].Host == primary.Host && (forall j in 0..i :: mixins[j].Host == "")
+//@   loop 1: invariant old(primary.Host) == "" && primary.Host == "" ==> forall i in 0..idx :: mixins[i].Host == ""
+//@   loop 1: invariant forall i in 0..len(mixins) :: mixins[i].Host == old(mixins[i].Host)
+//@   loop 1: invariant (old(primary.BasePath) != "" ==> primary.BasePath == old(primary.BasePath))
+//@   loop 1: invariant old(primary.BasePath) == "" && primary.BasePath != "" ==> exists i in 0..idx :: mixins[i].BasePath == primary.BasePath && (forall j in 0..i :: mixins[j].BasePath == "")
+//@   loop 1: invariant old(primary.BasePath) == "" && primary.BasePath == "" ==> forall i in 0..idx :: mixins[i].BasePath == ""
+//@   loop 1: invariant forall i in 0..len(mixins) :: mixins[i].BasePath == old(mixins[i].BasePath)
 
 // ---- Mixin as a whole keeps operation ids pairwise distinct (C18, aspect uniq). Hypotheses of the property: ids unique
 // within each document; no document already holds an id of the form '<id>Mixin<N>' of an id of any document. Further
